@@ -632,8 +632,10 @@ int xmp_set_tempo_factor(xmp_context opaque, double val)
 	 * change during playback, so repeat these checks in the mixer. */
 	ticksize = libxmp_mixer_get_ticksize(s->freq, val, m->rrate, p->bpm);
 
-	/* ticksize is in frames, XMP_MAX_FRAMESIZE is in frames * 2. */
-	if (ticksize < 0 || ticksize > (XMP_MAX_FRAMESIZE / 2)) {
+	/* ticksize is in frames, XMP_MAX_FRAMESIZE (and the total_size and
+	 * buffer_size reported by xmp_get_frame_info) is in bytes: up to 4
+	 * bytes per frame (16 bit stereo). */
+	if (ticksize < 0 || ticksize > (XMP_MAX_FRAMESIZE / 4)) {
 		return -1;
 	}
 	m->time_factor = val;
